@@ -284,7 +284,7 @@ def fixed_cases():
             for split in (0, 2, 5):
                 mk(aliases=chain3, preferred=['A', 'y'], ops=cross, family={'role': role, 'split': split, 'other_first': first},
                    reads=[['g', ['n', 'A']], ['a', 'D'], ['a', 'y']], solve=['A', 'y'])
-    mk(aliases=[['A', 'X']], ops=[['query', ['contains', 'A']]])                               # kept finding: `in` is not wrapped
+    mk(aliases=[['A', 'X'], ['B', 'A'], ['c', 'Q']], ops=[['query', ['contains', n]] for n in ('A', 'B', 'X', 'c', 'Q', 'Y')])   # `in` through aliases (fix 0f38318)
     mk(aliases=[['B', 'C'], ['A', 'B'], ['C', 'D'], ['D', 'X']], preferred=['C'], ops=ops[:3], reads=[['g', ['l', 'A', 10]]])   # chain of 4, dict order scrambled
     chain6 = [['a%d' % i, 'a%d' % (i + 1)] for i in range(1, 6)] + [['a6', 'X']]
     ops6 = [['setitem', ['l', 'a1', 11], S(['i', 9])], ['setattr', 'a3', li(1, 1, 1)], ['query', 'completions'], ['query', ['contains', 'a2']]]
